@@ -172,6 +172,28 @@ class Prop(BaseProp):
                 compare("extra-file-alone-vs-in-larger-run", {k: full.get(k) for k in alone}, alone)
             else:
                 res.violate("variant-run-failed:multi", str(o.exc)[:200], wit)
+            # (h) re-run into an existing output directory: an earlier run documented a longer revision of the same files
+            #     (and a file that no longer exists is NOT expected to vanish -- only the files of this run are compared)
+            loc4 = os.path.join(sb, "fourth", "proj")
+            shutil.copytree(loc1, loc4)
+            longer = {}
+            for f in tree.files:
+                longer[f] = tree.files[f] + "#[[[\n# an entry that the next revision no longer has, " + "x" * 300 + "\n#]]\nfunction(gone_later a b c)\nendfunction()\n"
+                with open(os.path.join(loc4, f), "w", encoding="utf-8", newline="") as fh:
+                    fh.write(longer[f])
+            o = runner.run_main([target(loc4), "-o", out_dir("rerun")] + flags, cwd=sb, home=home)
+            for f in tree.files:
+                with open(os.path.join(loc4, f), "w", encoding="utf-8", newline="") as fh:
+                    fh.write(tree.files[f])
+                # same or older time stamp than the first output: content, not time, must decide
+                if rng.random() < 0.5:
+                    os.utime(os.path.join(loc4, f), (1_000_000_000, 1_000_000_000))
+            o = runner.run_main([target(loc4), "-o", out_dir("rerun")] + flags, cwd=sb, home=home)
+            res.count("history_runs")
+            if o.ok:
+                compare("rerun-into-existing-output", read_tree(out_dir("rerun")), ref)
+            else:
+                res.violate("variant-run-failed:rerun", str(o.exc)[:200], wit)
             # (g) tree plus extra files: pages of the original files unchanged
             if not single:
                 loc3 = os.path.join(sb, "third", "proj")
